@@ -7,6 +7,7 @@ import (
 	"encoding/json"
 	"fmt"
 	"os"
+	"sync/atomic"
 	"time"
 
 	templruntime "github.com/a-h/templ/runtime"
@@ -19,6 +20,7 @@ type out struct {
 	Got     []probe.Result `json:"got"`
 	Touches int            `json:"touches"`
 	Dev     bool           `json:"dev"`
+	Fresh   int64          `json:"fresh"`
 }
 
 func main() {
@@ -47,6 +49,7 @@ func main() {
 			go probe.Toucher(base, stop, done)
 		}
 		o.Got = probe.Concurrent(sc)
+		o.Fresh = atomic.LoadInt64(&probe.FreshBuffers)
 		close(stop)
 		if dev && sc.Touch {
 			o.Touches = <-done
